@@ -206,7 +206,13 @@ def rand_block(rng: random.Random):
         block.append([{"groups": [1, 0, 1, 7, 0, NONE], "values": [{"value": list(b"1.5"), "unit": list(b"kW"), "hasunit": True}]}])
     if rng.random() < 0.5 and (1, 0, 0) not in used:
         y, mo, d = rng.randint(0, 99), rng.randint(1, 12), rng.randint(1, 28)
-        clock = b"%02d%02d%02d%02d%02d%02d" % (y, mo, d, rng.randint(0, 23), rng.randint(0, 59), rng.randint(0, 59)) + rng.choice([b"W", b"S", b""])
+        hh, mi, ss = rng.randint(0, 23), rng.randint(0, 59), rng.randint(0, 59)
+        from .core import dst_wall_times
+        gaps = dst_wall_times()
+        if gaps and rng.random() < 0.4:         # a civil time the HOST's zone skips or repeats: the meter's clock is the meter's, not the host's
+            gy, mo, d, hh, mi, ss, _ = rng.choice(gaps)
+            y = gy % 100
+        clock = b"%02d%02d%02d%02d%02d%02d" % (y, mo, d, hh, mi, ss) + rng.choice([b"W", b"S", b""])
         block.insert(rng.randint(0, len(block)), [{"groups": [0, 0, 1, 0, 0, NONE], "values": [{"value": list(clock), "unit": [], "hasunit": False}]}])
     return block
 
